@@ -52,6 +52,10 @@
      changes them); the value is printed with the effect ([eff_code]);
    * [CUser v]: a params write of a further host-side variable (UserVar): no device access, no
      effect on anything the camera does.
+   * a description that declares TLParamsLocked as a <MaskedIntReg> ([n_mask]): its set_value reads the
+     register back first ([tl_read_back]: the effect GenApiRead, unless the register is cached);
+   * [CHold b]: the application takes / drops a second handle of a sharable context: no effect on anything
+     the camera does (rust/h_camera runs the sessions with DefaultGenApiCtxt and SharedDefaultGenApiCtxt).
    [tl_feat s] is the value TLParamsLocked was given last, through its register or as a host-side
    variable (what the protocol calls "TLParamsLocked"); [tl_locked s] stays the device register. *)
 From Cam Require Export Outcome CameraProto.
@@ -73,6 +77,7 @@ Definition E_CTRL_INVALID_DATA : Z := 105.
 Record ctx := { n_tl : bool; n_start : bool; n_stop : bool;
                 n_copy : bool;                 (* TLParamsLocked has a <pValueCopy> *)
                 n_stop0 : bool;                (* AcquisitionStop's CommandValue is 0 (else 1) *)
+                n_mask : bool;                 (* TLParamsLocked is a <MaskedIntReg>: written by read-modify-write *)
                 c_tl : option bool; c_start : bool; c_stop : bool;
                 c_copy : bool;                 (* a value of the mirror register is cached *)
                 c_bank : Z -> option Z;        (* cached value of each bank slot *)
@@ -115,7 +120,7 @@ Definition err_base (e : effect) : Z :=
   | CtrlOpen | CtrlClose | GenApiFetch | EnableStreaming | DisableStreaming => E_CTRL
   | StrmOpen | StrmClose | LoopStart | LoopStop => E_STRM
   | SetTLParamsLocked _ | AcqStart | AcqStop | GenApiRead | CopyTL _ | BankRead _ => E_GENAPI_DEVICE
-  | LoadCtxt _ _ _ _ _ _ | ClearCache | BankPoke _ _ | HostTL _ => 0
+  | LoadCtxt _ _ _ _ _ _ _ | ClearCache | BankPoke _ _ | HostTL _ => 0
   end.
 (* the fault is passed on unchanged: same class, wrapped by the layer it went through *)
 Definition err_of (e : effect) (cls : Z) : Z := err_base e + cls.
@@ -150,7 +155,7 @@ Definition apply_eff (e : effect) (s : cam) : cam :=
                           tl_copy := tl_copy s; bank := bank s; tl_feat := tl_feat s |}
   | SetTLParamsLocked b =>
       (* IntReg::set_value: ctrl.write, then the written bytes are cached (WriteThrough) *)
-      upd_ctx (fun c => {| n_tl := n_tl c; n_start := n_start c; n_stop := n_stop c; n_copy := n_copy c; n_stop0 := n_stop0 c;
+      upd_ctx (fun c => {| n_tl := n_tl c; n_start := n_start c; n_stop := n_stop c; n_copy := n_copy c; n_stop0 := n_stop0 c; n_mask := n_mask c;
                           c_tl := Some b; c_start := c_start c; c_stop := c_stop c; c_copy := c_copy c;
                           c_bank := c_bank c; h_tl := h_tl c |})
         {| opened_ctrl := opened_ctrl s; opened_strm := opened_strm s; ctxt := ctxt s;
@@ -158,7 +163,7 @@ Definition apply_eff (e : effect) (s : cam) : cam :=
            tl_copy := tl_copy s; bank := bank s; tl_feat := b |}
   | HostTL b =>
       (* IntegerNode::set_value on an immediate <Value>: cx.value_store_mut().update(vid, b) *)
-      upd_ctx (fun c => {| n_tl := n_tl c; n_start := n_start c; n_stop := n_stop c; n_copy := n_copy c; n_stop0 := n_stop0 c;
+      upd_ctx (fun c => {| n_tl := n_tl c; n_start := n_start c; n_stop := n_stop c; n_copy := n_copy c; n_stop0 := n_stop0 c; n_mask := n_mask c;
                           c_tl := c_tl c; c_start := c_start c; c_stop := c_stop c; c_copy := c_copy c;
                           c_bank := c_bank c; h_tl := Some b |})
         {| opened_ctrl := opened_ctrl s; opened_strm := opened_strm s; ctxt := ctxt s;
@@ -166,21 +171,21 @@ Definition apply_eff (e : effect) (s : cam) : cam :=
            tl_copy := tl_copy s; bank := bank s; tl_feat := b |}
   | CopyTL b =>
       (* the same for the register <pValueCopy> refers to *)
-      upd_ctx (fun c => {| n_tl := n_tl c; n_start := n_start c; n_stop := n_stop c; n_copy := n_copy c; n_stop0 := n_stop0 c;
+      upd_ctx (fun c => {| n_tl := n_tl c; n_start := n_start c; n_stop := n_stop c; n_copy := n_copy c; n_stop0 := n_stop0 c; n_mask := n_mask c;
                           c_tl := c_tl c; c_start := c_start c; c_stop := c_stop c; c_copy := true;
                           c_bank := c_bank c; h_tl := h_tl c |})
         {| opened_ctrl := opened_ctrl s; opened_strm := opened_strm s; ctxt := ctxt s;
            stream_enabled := stream_enabled s; tl_locked := tl_locked s; acquiring := acquiring s; loop_running := loop_running s;
            tl_copy := b; bank := bank s; tl_feat := tl_feat s |}
   | AcqStart =>
-      upd_ctx (fun c => {| n_tl := n_tl c; n_start := n_start c; n_stop := n_stop c; n_copy := n_copy c; n_stop0 := n_stop0 c;
+      upd_ctx (fun c => {| n_tl := n_tl c; n_start := n_start c; n_stop := n_stop c; n_copy := n_copy c; n_stop0 := n_stop0 c; n_mask := n_mask c;
                           c_tl := c_tl c; c_start := true; c_stop := c_stop c; c_copy := c_copy c;
                           c_bank := c_bank c; h_tl := h_tl c |})
         {| opened_ctrl := opened_ctrl s; opened_strm := opened_strm s; ctxt := ctxt s;
            stream_enabled := stream_enabled s; tl_locked := tl_locked s; acquiring := true; loop_running := loop_running s;
            tl_copy := tl_copy s; bank := bank s; tl_feat := tl_feat s |}
   | AcqStop =>
-      upd_ctx (fun c => {| n_tl := n_tl c; n_start := n_start c; n_stop := n_stop c; n_copy := n_copy c; n_stop0 := n_stop0 c;
+      upd_ctx (fun c => {| n_tl := n_tl c; n_start := n_start c; n_stop := n_stop c; n_copy := n_copy c; n_stop0 := n_stop0 c; n_mask := n_mask c;
                           c_tl := c_tl c; c_start := c_start c; c_stop := true; c_copy := c_copy c;
                           c_bank := c_bank c; h_tl := h_tl c |})
         {| opened_ctrl := opened_ctrl s; opened_strm := opened_strm s; ctxt := ctxt s;
@@ -194,14 +199,14 @@ Definition apply_eff (e : effect) (s : cam) : cam :=
                   tl_copy := tl_copy s; bank := bank s; tl_feat := tl_feat s |}
   | GenApiRead =>
       (* IntReg::value without a cached value: ctrl.read, then the bytes read are cached *)
-      upd_ctx (fun c => {| n_tl := n_tl c; n_start := n_start c; n_stop := n_stop c; n_copy := n_copy c; n_stop0 := n_stop0 c;
+      upd_ctx (fun c => {| n_tl := n_tl c; n_start := n_start c; n_stop := n_stop c; n_copy := n_copy c; n_stop0 := n_stop0 c; n_mask := n_mask c;
                           c_tl := Some (tl_locked s); c_start := c_start c; c_stop := c_stop c; c_copy := c_copy c;
                           c_bank := c_bank c; h_tl := h_tl c |}) s
   | BankRead k =>
       (* RegisterBase::read_and_cache at address base + 4 * k: ctrl.read, then
          cx.cache_data(nid, address, length, buf): the block of THIS slot is stored, the blocks of the
          other slots stay as they are *)
-      upd_ctx (fun c => {| n_tl := n_tl c; n_start := n_start c; n_stop := n_stop c; n_copy := n_copy c; n_stop0 := n_stop0 c;
+      upd_ctx (fun c => {| n_tl := n_tl c; n_start := n_start c; n_stop := n_stop c; n_copy := n_copy c; n_stop0 := n_stop0 c; n_mask := n_mask c;
                           c_tl := c_tl c; c_start := c_start c; c_stop := c_stop c; c_copy := c_copy c;
                           c_bank := fun j => if j =? k then Some (bank s k) else c_bank c j; h_tl := h_tl c |}) s
   | BankPoke k v =>
@@ -209,9 +214,9 @@ Definition apply_eff (e : effect) (s : cam) : cam :=
       {| opened_ctrl := opened_ctrl s; opened_strm := opened_strm s; ctxt := ctxt s;
          stream_enabled := stream_enabled s; tl_locked := tl_locked s; acquiring := acquiring s; loop_running := loop_running s;
          tl_copy := tl_copy s; bank := fun j => if j =? k then v else bank s j; tl_feat := tl_feat s |}
-  | LoadCtxt t a p y h z =>
+  | LoadCtxt t a p y h z k =>
       (* Ctxt::from_xml: a new context, nothing cached; a host-side TLParamsLocked starts at its <Value> 0 *)
-      {| opened_ctrl := opened_ctrl s; opened_strm := opened_strm s; ctxt := Some {| n_tl := t; n_start := a; n_stop := p; n_copy := y; n_stop0 := z;
+      {| opened_ctrl := opened_ctrl s; opened_strm := opened_strm s; ctxt := Some {| n_tl := t; n_start := a; n_stop := p; n_copy := y; n_stop0 := z; n_mask := k;
                       c_tl := None; c_start := false; c_stop := false; c_copy := false;
                       c_bank := fun _ => None; h_tl := if h then Some false else None |};
          stream_enabled := stream_enabled s; tl_locked := tl_locked s; acquiring := acquiring s; loop_running := loop_running s;
@@ -219,7 +224,7 @@ Definition apply_eff (e : effect) (s : cam) : cam :=
   | ClearCache =>
       (* DefaultCacheStore::clear: self.store.clear() -- the blocks of every node are dropped; the value
          store (host-side variables) is not a cache and stays *)
-      upd_ctx (fun c => {| n_tl := n_tl c; n_start := n_start c; n_stop := n_stop c; n_copy := n_copy c; n_stop0 := n_stop0 c;
+      upd_ctx (fun c => {| n_tl := n_tl c; n_start := n_start c; n_stop := n_stop c; n_copy := n_copy c; n_stop0 := n_stop0 c; n_mask := n_mask c;
                           c_tl := None; c_start := false; c_stop := false; c_copy := false;
                           c_bank := fun _ => None; h_tl := h_tl c |}) s
   end.
@@ -283,15 +288,29 @@ Definition cam_open : M Z :=
    also defines the register bank and its selector. *)
 Record xmlv := { x_parses : bool; x_tl : bool; x_start : bool; x_stop : bool; x_copy : bool;
                  x_host : bool;      (* TLParamsLocked is a host-side variable (then no <pValueCopy>) *)
-                 x_stop0 : bool      (* AcquisitionStop's CommandValue is 0 *) }.
+                 x_stop0 : bool;     (* AcquisitionStop's CommandValue is 0 *)
+                 x_mask : bool       (* TLParamsLocked is a <MaskedIntReg> (bit 0 of its register) *) }.
 
 (* pub fn load_context(&mut self):
      let xml = self.ctrl.genapi()?; self.ctxt = Some(Ctxt::from_xml(&xml)?); Ok(xml) *)
 Definition cam_load (x : xmlv) : M Z :=
   do_op GenApiFetch ;;;
   need (x_parses x) E_CTRL_INVALID_DATA ;;;
-  emit (LoadCtxt (x_tl x) (x_start x) (x_stop x) (x_copy x) (x_host x) (x_stop0 x)) ;;;
+  emit (LoadCtxt (x_tl x) (x_start x) (x_stop x) (x_copy x) (x_host x) (x_stop0 x) (x_mask x)) ;;;
   ret (-1).
+
+(* Where TLParamsLocked is a <MaskedIntReg>, IInteger::set_value is a read-modify-write
+   (genapi/src/masked_int_reg.rs): `let old_reg_value = reg.with_cache_or_read(..)?;` -- the cached block of
+   the register if there is one, else a device read (one more fallible operation, whose error is
+   returned) that caches what it read -- then the masked bits are replaced and the register is written
+   (write_and_cache).  For any other declaration of TLParamsLocked nothing is read back. *)
+Definition tl_read_back (c : ctx) : M unit :=
+  if n_mask c then
+    match c_tl c with
+    | Some _ => ret tt
+    | None => do_op GenApiRead
+    end
+  else ret tt.
 
 (* pub fn start_streaming(&mut self, cap: usize) *)
 Definition cam_start (fx : bool) (cap : Z) : M Z :=
@@ -304,7 +323,8 @@ Definition cam_start (fx : bool) (cap : Z) : M Z :=
   match h_tl c with                                     (*   .set_value(&mut ctxt, 1)?; *)
   | Some _ => emit (HostTL true)                        (*     ValueKind::Value: the slot of the value store is updated *)
   | None =>
-      do_op (SetTLParamsLocked true) ;;;                (*     PValue::set_value: self.p_value.set_value(..)?; *)
+      tl_read_back c ;;;                                (*     MaskedIntRegNode::set_value: reg.with_cache_or_read(..)?  (old register value) *)
+      do_op (SetTLParamsLocked true) ;;;                (*     PValue::set_value: self.p_value.set_value(..)?; / write_and_cache *)
       (if n_copy c then do_op (CopyTL true) else ret tt) (*     for nid in self.p_value_copies() { nid.set_value(..)?; } *)
   end ;;;
   need (n_start c) E_INVALID_XML ;;;                    (* expect_node!(&ctxt, "AcquisitionStart", as_command) *)
@@ -325,7 +345,8 @@ Definition cam_stop : M Z :=
   match h_tl c with                                     (*   .set_value(&mut ctxt, 0)?; *)
   | Some _ => emit (HostTL false)                       (*     ValueKind::Value: the slot of the value store is updated *)
   | None =>
-      do_op (SetTLParamsLocked false) ;;;               (*     PValue::set_value: self.p_value.set_value(..)?; *)
+      tl_read_back c ;;;                                (*     MaskedIntRegNode::set_value: reg.with_cache_or_read(..)?  (old register value) *)
+      do_op (SetTLParamsLocked false) ;;;               (*     PValue::set_value: self.p_value.set_value(..)?; / write_and_cache *)
       (if n_copy c then do_op (CopyTL false) else ret tt) (*    for nid in self.p_value_copies() { nid.set_value(..)?; } *)
   end ;;;
   do_op DisableStreaming ;;;                            (* self.ctrl.disable_streaming()?; *)
@@ -377,9 +398,14 @@ Definition cam_user (v : Z) : M Z :=
   c <- params_ctxt ;;
   ret (-1).
 
+(* the APPLICATION takes ([true]) / drops ([false]) a second handle of the camera's context
+   (`camera.ctxt.clone()` of a sharable context); no camera method is involved and nothing the camera
+   does depends on it: close drops the cached values whoever else holds the context *)
+Definition cam_hold (b : bool) : M Z := ret (-1).
+
 Inductive call :=
 | COpen | CLoad (x : xmlv) | CStart (cap : Z) | CStop | CClose | CParams
-| CBank (k : Z) | CPoke (k v : Z) | CUser (v : Z).
+| CBank (k : Z) | CPoke (k v : Z) | CUser (v : Z) | CHold (b : bool).
 
 Definition call_body (fx : bool) (c : call) : M Z :=
   match c with
@@ -392,6 +418,7 @@ Definition call_body (fx : bool) (c : call) : M Z :=
   | CBank k => cam_bank k
   | CPoke k v => cam_poke k v
   | CUser v => cam_user v
+  | CHold b => cam_hold b
   end.
 
 (* result of one call *)
@@ -437,7 +464,7 @@ Definition eff_code (z0 : bool) (e : effect) : list Z :=
   | DisableStreaming => [11] | CtrlClose => [12] | StrmClose => [13] | GenApiRead => [15]
   | CopyTL true => [16] | CopyTL false => [17]
   | BankRead k => [30 + k]
-  | LoadCtxt _ _ _ _ _ _ | ClearCache | HostTL _ => []   (* host side: not an event of the fakes *)
+  | LoadCtxt _ _ _ _ _ _ _ | ClearCache | HostTL _ => []   (* host side: not an event of the fakes *)
   | BankPoke _ _ => []                      (* environment: not an operation of the camera *)
   end.
 
@@ -471,17 +498,19 @@ Definition call_of_Z (z : Z) : call :=
   else if (10 <=? z) && (z <=? 19) then CStart (z - 10)
   else if (60 <=? z) && (z <=? 63) then CBank (z - 60)
   else if (70 <=? z) && (z <=? 79) then CUser (z - 70)
-  else if (1000 <=? z) && (z <? 2536) then CPoke ((z - 1000) / 256) ((z - 1000) mod 256)
-  else if (48 <=? z) && (z <=? 51) then
+  else if z =? 81 then CHold true else if z =? 82 then CHold false
+  else if (1000 <=? z) && (z <? 2792) then CPoke ((z - 1000) / 256) ((z - 1000) mod 256)
+  else if (48 <=? z) && (z <=? 52) then
        (* conforming descriptions: 48 TLParamsLocked = <pValue> + <pValueCopy>; 49 the two commands carry
           <pIsAvailable> backed by device registers (execute does not consult it: as the plain one);
           50 TLParamsLocked is a host-side variable and AcquisitionStop has CommandValue 0;
-          51 AcquisitionStop has CommandValue 0 *)
+          51 AcquisitionStop has CommandValue 0; 52 TLParamsLocked is a <MaskedIntReg> *)
        CLoad {| x_parses := true; x_tl := true; x_start := true; x_stop := true; x_copy := z =? 48;
-                x_host := z =? 50; x_stop0 := (z =? 50) || (z =? 51) |}
+                x_host := z =? 50; x_stop0 := (z =? 50) || (z =? 51); x_mask := z =? 52 |}
   else let v := z - 20 in
        CLoad {| x_parses := v <? 27; x_tl := v mod 3 =? 0; x_start := (v / 3) mod 3 =? 0;
-                x_stop := (v / 9) mod 3 =? 0; x_copy := false; x_host := false; x_stop0 := false |}.
+                x_stop := (v / 9) mod 3 =? 0; x_copy := false; x_host := false; x_stop0 := false;
+                x_mask := false |}.
 
 Fixpoint triples_of (l : list Z) : list (nat * nat * Z) :=
   match l with
@@ -511,6 +540,10 @@ Definition tl_value (s : cam) : bool :=
   | None => tl_locked s
   end.
 
+(* the accesses of [tl_read_back c]: the read-back of a <MaskedIntReg> TLParamsLocked whose register is not cached *)
+Definition tl_read_effs (c : ctx) : list effect :=
+  if n_mask c then match c_tl c with Some _ => [] | None => [GenApiRead] end else [].
+
 (* [tl_feat s = false]: TLParamsLocked, as last written (register or host-side variable), is 0 *)
 Definition clean (s : cam) : Prop :=
   loop_running s = false /\ tl_feat s = false /\ stream_enabled s = false /\
@@ -524,7 +557,7 @@ Definition first_fail (plc : nat -> option Z) (j : nat) (cls : Z) : Prop :=
 (* the fallible operations among the effects (device / stream accesses; LoadCtxt and ClearCache are
    host-side steps, BankPoke is the environment) *)
 Definition is_access (e : effect) : bool :=
-  match e with LoadCtxt _ _ _ _ _ _ | ClearCache | BankPoke _ _ | HostTL _ => false | _ => true end.
+  match e with LoadCtxt _ _ _ _ _ _ _ | ClearCache | BankPoke _ _ | HostTL _ => false | _ => true end.
 
 (* One session with every single failure point, for the correspondence: the failure-free run, then
    for every call i and every operation j < (operations the failure-free run of call i attempts) the
@@ -552,6 +585,6 @@ Definition one_class (salt : Z) : nat -> nat -> list Z :=
 (* every class at the write of the <pValueCopy> mirror and at the bank reads, one rotating class elsewhere *)
 Definition focus_classes (salt : Z) : nat -> nat -> effect -> list Z :=
   fun i j e => match e with
-               | CopyTL _ | BankRead _ => [0; 1; 2; 3; 4; 5; 6; 7]
+               | CopyTL _ | BankRead _ | GenApiRead => [0; 1; 2; 3; 4; 5; 6; 7]
                | _ => one_class salt i j
                end.
